@@ -14,6 +14,8 @@ import (
 var registry = map[string]func(*chk.Run){
 	"C01": checks.C01,
 	"C02": checks.C02,
+	"C03": checks.C03,
+	"C04": checks.C04,
 	"C05": checks.C05,
 	"C07": checks.C07,
 	"C08": checks.C08,
@@ -21,6 +23,7 @@ var registry = map[string]func(*chk.Run){
 	"C14": checks.C14,
 	"C15": checks.C15,
 	"C17": checks.C17,
+	"C20": checks.C20,
 	"C06": checks.C06,
 }
 
